@@ -146,6 +146,8 @@ func genC13(out *vh.Out, tier string, outPath string) {
 	}
 	// 2. nulls / empty collections / wrong kinds in every position of a definition that uses every field
 	everySlot(func(stream string, t *Y) { emit(stream, nil, t) })
+	// 2b. targeted families (signal spellings, empty maps in executor config, step-level invalid definitions)
+	targeted(func(stream string, t *Y) { emit(stream, nil, t) })
 	// 3. every `any` field over small untyped trees
 	for _, f := range anyFields() {
 		trees := smallTrees(f.atoms, f.keys, 3)
